@@ -341,6 +341,74 @@ def object_field_extents(v):
     return out
 
 
+def element_arrays(v):
+    """(record, field) -> (count term, element record, [element constructor arguments]) for fields the constructor fills with
+    new_<Elem>_array(count, args...); terms are over `this` and the constructor's parameter symbols"""
+    import re as _re
+    out = {}
+    this0 = sym.idx(sym.sym("this"), ZERO)
+    for rname in v.records:
+        ctors = [f for f in v.defined() if f.get("record") == rname and f.get("kind") == "ctor" and not f.get("implicit")
+                 and not f.get("defaulted") and not f.get("deleted") and not f.get("copy")]
+        if len(ctors) != 1:
+            continue
+        eff, st, ex = run_function(v, ctors[0], hooks=Hooks())
+        for x in flat(eff):
+            if x["e"] == "store" and x["op"] == "=" and x["lv"][0] == "fld" and x["lv"][1] == this0 and x["val"][0] == "obj":
+                m = _re.match(r"^new_(\w+)_array$", str(x["val"][1]))
+                if m and m.group(1) in v.records and x["val"][2]:
+                    out[(rname, x["lv"][2])] = (x["val"][2][0], m.group(1), list(x["val"][2][1:]))
+    return out
+
+
+def field_array_extent(v, t, roots, fext, earr, depth=0):
+    """extent (in elements) of the array the pointer term t = O.G refers to, as a term over the objects it hangs off, using the
+    constructors: O's record fills G with an array sized by its constructor arguments, which are either stored in fields of O
+    or, when O is an element of X.F created by new_<Rec>_array(count, args), the arguments X's constructor passed"""
+    from .ioseq import type_of, _record_in_type
+    if depth > 4 or t is None or t[0] != "fld":
+        return None
+    O, G = t[1], t[2]
+    rec = _record_in_type(v, type_of(v, O, roots))
+    if rec is None or (rec, G) not in fext:
+        return None
+    ext, cparams = fext[(rec, G)]
+    this = sym.sym("this")
+    m = {}
+    # element of an array created by the owner's constructor?
+    if O[0] == "idx" and O[1][0] == "fld":
+        X, F = O[1][1], O[1][2]
+        xrec = _record_in_type(v, type_of(v, X, roots))
+        ea = earr.get((xrec, F))
+        if ea is not None and ea[1] == rec and len(ea[2]) == len(cparams):
+            xptr = X[1] if X[0] == "idx" and X[2] == ZERO else sym.addr(X)
+            xm = {this: xptr}
+            # X's own constructor parameters: stored in fields of X
+            xctor = [f for f in v.defined() if f.get("record") == xrec and f.get("kind") == "ctor" and not f.get("implicit") and not f.get("copy")]
+            if len(xctor) == 1:
+                eff, st, ex = run_function(v, xctor[0], hooks=Hooks())
+                for x in flat(eff):
+                    if x["e"] == "store" and x["op"] == "=" and x["lv"][0] == "fld" and x["lv"][1] == sym.idx(this, ZERO) and x["val"][0] == "sym":
+                        xm.setdefault(x["val"], sym.fld(X, x["lv"][2]))
+            for nm, a in zip(cparams, ea[2]):
+                m[sym.sym(nm)] = sym.subst(a, xm)
+    if not m:
+        ctor = [f for f in v.defined() if f.get("record") == rec and f.get("kind") == "ctor" and not f.get("implicit") and not f.get("copy")]
+        if len(ctor) != 1:
+            return None
+        eff, st, ex = run_function(v, ctor[0], hooks=Hooks())
+        for x in flat(eff):
+            if x["e"] == "store" and x["op"] == "=" and x["lv"][0] == "fld" and x["lv"][1] == sym.idx(this, ZERO) and x["val"][0] == "sym":
+                m.setdefault(x["val"], sym.fld(O, x["lv"][2]))
+    optr = O[1] if O[0] == "idx" and O[2] == ZERO else sym.addr(O)
+    m[this] = optr
+    out = sym.subst(ext, m)
+    known = {r_ for r_ in roots}
+    if any(a[0] == "sym" and a not in known and a != this for a in sym.atoms(out)):
+        return None          # a constructor argument that is not kept in the object: extent not expressible here
+    return out
+
+
 def local_arrays(effs):
     """obj term -> (extent term in elements, description, line)"""
     out = {}
